@@ -16,7 +16,8 @@ from harness import common as C
 RULE = ('transform cases: every shape in {1..9}^2 (all parity pairs, square and not) several times plus a few up to 24x17; Q half '
         'from {1,2,3,1.5,2.37,0.8,(1.7,2.3),(2,1)} and half RANDOM REALS in [0.3,5] (scalar or per-axis, all digits random); output '
         'sizes 1..10 per axis (every parity, smaller and larger than the input); shift from {0,+-1,+-2.5,(1.5,-2.25),(0,1)} or random '
-        'reals in [-4,4]; direction fwd/inv; input dtype from {complex128, float64, complex64, float32, int64, bool}; config.precision '
+        'reals in [-4,4]; a systematic block of near-symmetric cases (square in/out, equal shifts, one Q, then exactly one per-axis '
+        'parameter made different); direction fwd/inv; input dtype from {complex128, float64, complex64, float32, int64, bool}; config.precision '
         '64 (85%) / 32 (15%); 40% of the cases pass Q / samples_out / shift as list, ndarray or scalar instead of tuples; methods mdft '
         'and czt both run on every case, on a FRESH executor (pure-function test against the Lean double sum) and on the shared '
         'executors (the stream is one long history: a difference is reduced to a short culprit history); FFT-route cases: focus/unfocus '
@@ -123,16 +124,45 @@ QS = [1, 2, 3, 1.5, 2.37, 0.8, (1.7, 2.3), (2, 1), (1.0, 1.0)]
 SHIFTS = [(0, 0), (0, 0), (0, 0), (1, 1), (-1, 0), (2.5, -2.5), (1.5, -2.25), (0, 1), (-2.5, 0.75)]
 
 
-def make_input(shape, dtype, seed):
-    """deterministic, well-conditioned input of the requested dtype (reconstructible from (shape, dtype, seed))"""
+LAYOUTS = ['C', 'F', 'T', 'strided', 'negstride', 'readonly']
+
+
+def relayout(a, kind):
+    """the same values in another memory layout: Fortran order, a transposed view, a strided view of a larger buffer, a view
+    with negative strides, a read-only array (the implementation must neither depend on the layout nor write to its input)"""
+    if kind in (None, 'C'):
+        return a
+    if kind == 'F':
+        return np.asfortranarray(a)
+    if kind == 'T':
+        return np.ascontiguousarray(a.T).T
+    if kind == 'strided':
+        big = np.zeros((2 * a.shape[0] + 1, 3 * a.shape[1] + 2), dtype=a.dtype)
+        big[1::2, 2::3] = a
+        return big[1::2, 2::3]
+    if kind == 'negstride':
+        return np.ascontiguousarray(a[::-1, ::-1])[::-1, ::-1]
+    if kind == 'readonly':
+        b = a.copy()
+        b.flags.writeable = False
+        return b
+    raise ValueError(kind)
+
+
+def gen_layout(r):
+    return 'C' if r.random() < 0.6 else LAYOUTS[int(r.integers(1, len(LAYOUTS)))]
+
+
+def make_input(shape, dtype, seed, layout=None):
+    """deterministic, well-conditioned input of the requested dtype and memory layout (reconstructible from its arguments)"""
     r = np.random.default_rng(seed)
     m, n = shape
     if dtype.startswith('complex'):
         a = r.standard_normal((m, n)) + 1j * r.standard_normal((m, n))
     elif dtype.startswith('float'):
         a = r.standard_normal((m, n))
-    elif dtype == 'int64':
-        a = r.integers(-3, 4, size=(m, n))
+    elif dtype.startswith('int') or dtype.startswith('uint'):
+        a = r.integers(0 if dtype.startswith('uint') else -3, 4, size=(m, n))
         if not a.any():
             a[0, 0] = 1
     elif dtype == 'bool':
@@ -141,7 +171,7 @@ def make_input(shape, dtype, seed):
             a[0, 0] = True
     else:
         raise ValueError(dtype)
-    return a.astype(dtype)
+    return relayout(a.astype(dtype), layout)
 
 
 def qpair(Q):
@@ -170,30 +200,43 @@ def apply_forms(Q, MN, shift, forms):
     if not forms:
         return Q, MN, shift
 
-    def conv(x, how):
+    def conv(x, how, kind):
         if how == 'list':
             return list(x)
         if how == 'array':
             return np.asarray(x)
         if how == 'scalar':
             return x[0]
+        if how == 'gen':
+            return (v for v in tuple(x))                 # a generator: can be consumed once
+        if how == 'iter':
+            return iter(list(x))                          # a one-shot iterator
+        if how == 'narrow':                               # NumPy scalar types: narrow ints for counts, float32 where exact
+            if kind == 'count':
+                return tuple((np.uint8 if i % 2 else np.int16)(v) for i, v in enumerate(x))
+            if all(float(np.float32(v)) == float(v) for v in x):
+                return tuple(np.float32(v) for v in x)
+            return tuple(np.float64(v) for v in x)
         return tuple(x)
     fq, fs, fh = forms.get('Q', 'asis'), forms.get('samples', 'tuple'), forms.get('shift', 'tuple')
-    if fq != 'asis' and isinstance(Q, tuple):
-        Q = conv(Q, fq)
+    if fq != 'asis':
+        if isinstance(Q, tuple):
+            Q = conv(Q, fq, 'real')
+        elif fq == 'narrow':
+            Q = np.float32(Q) if float(np.float32(Q)) == float(Q) else np.float64(Q)
     if fs == 'scalar' and MN[0] != MN[1]:
         fs = 'tuple'
     if fh == 'scalar' and shift[0] != shift[1]:
         fh = 'tuple'
-    return Q, conv(MN, fs), conv(shift, fh)
+    return Q, conv(MN, fs, 'count'), conv(shift, fh, 'real')
 
 
 def gen_forms(r):
     if r.random() < 0.6:
         return None
-    return {'Q': ['asis', 'list', 'array'][int(r.integers(3))],
-            'samples': ['tuple', 'list', 'array', 'scalar'][int(r.integers(4))],
-            'shift': ['tuple', 'list', 'array', 'scalar'][int(r.integers(4))]}
+    return {'Q': ['asis', 'list', 'array', 'gen', 'narrow'][int(r.integers(5))],
+            'samples': ['tuple', 'list', 'array', 'scalar', 'gen', 'iter', 'narrow'][int(r.integers(7))],
+            'shift': ['tuple', 'list', 'array', 'scalar', 'gen', 'iter', 'narrow'][int(r.integers(7))]}
 
 
 def call_impl(method, direction, f, Q, MN, shift, fresh=False, forms=None):
@@ -278,7 +321,32 @@ def transform_case(ctx_rng, shape, big=False):
     forms = gen_forms(r)
     if forms:
         c['forms'] = forms
+    lay = gen_layout(r)
+    if lay != 'C':
+        c['layout'] = lay
     return c
+
+
+def symmetric_cases():
+    """near-symmetric situations: input and output square, equal shift components, one Q - and then exactly ONE of the four
+    per-axis parameters made different (a shortcut that treats the two axes alike when 'everything is symmetric' must test all four)"""
+    out = []
+    seed = 1000
+    for n in (3, 4):
+        for M in (n, 5):
+            for s_ in (0, 1.5):
+                for d in (-1, 1):
+                    base = {'shape': [n, n], 'Q': [1.7, 1.7], 'samples': [M, M], 'shift': [s_, s_], 'dir': d, 'dtype': 'complex128',
+                            'precision': 64}
+                    for key, val in ((None, None), ('Q', [1.7, 2.3]), ('Q', [2.3, 1.7]), ('shift', [s_, s_ + 1.25]),
+                                     ('samples', [M, M + 2]), ('shape', [n, n + 1])):
+                        c = {k: (list(v) if isinstance(v, list) else v) for k, v in base.items()}
+                        if key:
+                            c[key] = val
+                        seed += 1
+                        c['seed'] = seed
+                        out.append(c)
+    return out
 
 
 def case_args(c):
@@ -334,10 +402,11 @@ def _transforms(ctx, ft, pr, config):
     for _ in range(nbig):
         shp = (int(ctx.rng.integers(10, 25)), int(ctx.rng.integers(10, 18)))
         cases.append(transform_case(ctx.rng, shp, big=True))
+    cases = symmetric_cases() + cases
     lines, meta = [], []
     for c in cases:
         (m, n), Q, (M, N), shift = case_args(c)
-        f = make_input((m, n), c['dtype'], c['seed'])
+        f = make_input((m, n), c['dtype'], c['seed'], c.get('layout'))
         K, L = ft.next_fast_len(m + M - 1), ft.next_fast_len(n + N - 1)
         if K < m + M - 1 or L < n + N - 1:
             ctx.pred_fail('next_fast_len', {'arg': [m + M - 1, n + N - 1]}, f'next_fast_len returned {K, L}')
@@ -360,9 +429,11 @@ def _transforms(ctx, ft, pr, config):
                            'random real' if len(repr(Q)) > 6 else 'fractional<1' if Q < 1 else 'fractional'),
                    'shift:' + ('zero' if zero_shift else 'fractional' if any(float(s_) != int(s_) for s_ in shift) else 'integer'),
                    f'dtype:{c["dtype"]}', f'precision:{c["precision"]}', f'direction:{"fwd" if c["dir"] < 0 else "inv"}',
-                   f'argument_forms:{"tuples" if not c.get("forms") else "list/array/scalar"}'):
+                   f'argument_forms:{"tuples" if not c.get("forms") else "list/array/scalar/generator/iterator/numpy-scalars"}',
+                   f'layout:{c.get("layout", "C")}'):
             ctx.hist['transform.' + hk] += 1
         config.precision = c['precision']
+        f_before = np.array(f, copy=True)
         try:
             for method, model in (('mdft', md), ('czt', cz)):
                 cc = dict(c, method=method)
@@ -383,8 +454,9 @@ def _transforms(ctx, ft, pr, config):
                 if hist_reports < 3:
                     try:
                         shared = call_impl(method, c['dir'], f, Q, (M, N), shift, forms=c.get('forms'))
-                        lowp = c['precision'] == 32 if method == 'mdft' else c['dtype'] in ('complex64', 'float32')
-                        same = shared.dtype == out.dtype and close(shared, out, 1e-5 if lowp else 1e-10)[0]
+                        lowp = c['precision'] == 32 if method == 'mdft' else (
+                            c['dtype'] in ('complex64', 'float32') or (c['precision'] == 32 and not c['dtype'].startswith(('complex', 'float'))))
+                        same = shared.dtype == out.dtype and close(shared, out, max(1e-5, tol_for(dict(c, precision=32))) if lowp else 1e-10)[0]
                     except Exception:
                         same = False
                     if not same:
@@ -394,6 +466,9 @@ def _transforms(ctx, ft, pr, config):
                         if ops is not None:
                             ctx.pred_fail('history', {'ops': ops}, run_history(ops, ft, config)[0])
                             config.precision = c['precision']
+                if not np.array_equal(f, f_before):
+                    ctx.pred_fail('transform', cc, f'{method} modified its input array in place')
+                    f = make_input((m, n), c['dtype'], c['seed'], c.get('layout'))
                 ok, err = close(out, model, tol)
                 if not ok:
                     ctx.disagree('transform', cc, f'max |impl - model| = {err:.3g}', f'model {method} (tol {tol:g})')
@@ -435,9 +510,9 @@ def _fft_route(ctx, ft, pr, config):
     for rep in range(reps):
         for i, shp in enumerate(shapes):
             Q = Qs[(i + rep + int(ctx.rng.integers(len(Qs)))) % len(Qs)]
-            dtype = ['complex128', 'float64', 'complex64', 'bool'][int(ctx.rng.integers(4))]
+            dtype = ['complex128', 'float64', 'complex64', 'bool', 'float32', 'int64'][int(ctx.rng.integers(6))]
             cases.append({'shape': list(shp), 'Q': Q, 'dtype': dtype, 'seed': int(ctx.rng.integers(1 << 30)),
-                          'dir': -1 if (i + rep) % 2 == 0 else 1})
+                          'dir': -1 if (i + rep) % 2 == 0 else 1, 'layout': gen_layout(ctx.rng)})
     for _ in range(ctx.scale(10, 120)):
         shp = (int(ctx.rng.integers(10, 25)), int(ctx.rng.integers(10, 18)))
         cases.append({'shape': list(shp), 'Q': [1, 2, 1.5][int(ctx.rng.integers(3))], 'dtype': 'complex128',
@@ -445,7 +520,7 @@ def _fft_route(ctx, ft, pr, config):
     lines, meta = [], []
     for c in cases:
         m, n = c['shape']
-        f = make_input((m, n), c['dtype'], c['seed'])
+        f = make_input((m, n), c['dtype'], c['seed'], c.get('layout'))
         fn = pr.focus if c['dir'] < 0 else pr.unfocus
         try:
             out = fn(f, c['Q'])
@@ -569,7 +644,8 @@ def dispatch_case(r):
     return {'fn': ['focus_fixed_sampling', 'unfocus_fixed_sampling'][int(r.integers(2))], 'shape': [m, n], 'samples': [M, N],
             'dx': dx, 'efl': efl, 'wvl': wvl, 'out_dx': out_dx, 'shift': shift,
             'samples_form': ['tuple', 'list', 'int'][int(r.integers(3))] if M == N else ['tuple', 'list'][int(r.integers(2))],
-            'dtype': ['complex128', 'float64', 'bool'][int(r.choice(3, p=[0.7, 0.2, 0.1]))], 'seed': int(r.integers(1 << 30))}
+            'dtype': ['complex128', 'float64', 'bool', 'float32', 'int64', 'complex64'][int(r.choice(6, p=[0.45, 0.2, 0.1, 0.1, 0.1, 0.05]))],
+            'layout': gen_layout(r), 'seed': int(r.integers(1 << 30))}
 
 
 def dispatch_expect(c):
@@ -583,7 +659,7 @@ def dispatch_expect(c):
 def dispatch_outputs(c):
     """every way of making the call: function / Wavefront method x mdft / czt; returns [(label, array or exception, wavefront or None)]"""
     ft, pr, config = _impl()
-    f = make_input(tuple(c['shape']), c['dtype'], c['seed'])
+    f = make_input(tuple(c['shape']), c['dtype'], c['seed'], c.get('layout'))
     M, N = c['samples']
     samples = {'tuple': (M, N), 'list': [M, N], 'int': M}[c.get('samples_form', 'tuple')]
     fn = getattr(pr, c['fn'])
@@ -615,7 +691,10 @@ def check_dispatch(c, verbose=False, oracle=None):
     for label, out, w in outs:
         if isinstance(out, Exception):
             return False, f'{label} raised {type(out).__name__}: {str(out)[:140]}'
-        ok, err = close(out, sp, TOL64) if zero else close(np.abs(out), np.abs(sp), TOL64)
+        # the chirp-Z engine works in the precision of the array it is given (the Wavefront wrapper always hands it complex128)
+        tl = tol_for({'dtype': c['dtype'], 'shape': c['shape'], 'samples': c['samples'], 'Q': list(Q), 'shift': list(sh)}) \
+            if ('czt' in label and w is None) else TOL64
+        ok, err = close(out, sp, tl) if zero else close(np.abs(out), np.abs(sp), tl)
         if verbose:
             print(f'  {label}: max error against the textbook sum on the physical grid (Q = {Q[0]:.4g}, {Q[1]:.4g}; shift = '
                   f'{sh[0]:.4g}, {sh[1]:.4g} samples) {err:.3g}')
@@ -638,7 +717,7 @@ def _dispatch(ctx, ft, pr, config):
         Q, sh, d = dispatch_expect(c)
         m, n = c['shape']
         M, N = c['samples']
-        f = make_input((m, n), c['dtype'], c['seed'])
+        f = make_input((m, n), c['dtype'], c['seed'], c.get('layout'))
         lines.append(f'spec2 {d} {m} {n} {M} {N} {C.f2w(Q[0])} {C.f2w(Q[1])} {C.f2w(sh[1])} {C.f2w(sh[0])} {arr2w(f)}')
     rep = driver_parallel(lines)
     for c, row in zip(cases, rep):
@@ -653,7 +732,9 @@ def _dispatch(ctx, ft, pr, config):
             continue
         # model: czt2 == dft2 sample for sample (including the phase under a shift)
         f, outs = dispatch_outputs(c)
-        ok, err = close(outs[2][1], outs[0][1], TOL64)
+        Qd, shd, _ = dispatch_expect(c)
+        ok, err = close(outs[2][1], outs[0][1], tol_for({'dtype': c['dtype'], 'shape': c['shape'], 'samples': c['samples'],
+                                                         'Q': list(Qd), 'shift': list(shd)}))
         if not ok:
             ctx.disagree('dispatch', c, f'czt - mdft = {err:.3g}', 'model: czt2 == dft2 sample for sample')
         # the Wavefront.focus / unfocus wrappers (FFT route)
@@ -724,8 +805,11 @@ def gen_history(r, length):
             p = pool[int(r.integers(len(pool)))]
             ops.append(dict(p, op='call', method=['mdft', 'czt', 'mdft_bp'][int(r.choice(3, p=[0.42, 0.42, 0.16]))],
                             dir=-1 if r.random() < 0.5 else 1,
-                            dtype=['complex128', 'float64', 'complex64'][int(r.choice(3, p=[0.6, 0.25, 0.15]))],
-                            seed=int(r.integers(1 << 30))))
+                            dtype=['complex128', 'float64', 'complex64', 'float32', 'int64', 'bool'][
+                                int(r.choice(6, p=[0.45, 0.2, 0.15, 0.1, 0.05, 0.05]))],
+                            seed=int(r.integers(1 << 30)), layout=gen_layout(r)))
+            if ops[-1]['method'] != 'mdft_bp' and r.random() < 0.25:
+                ops[-1]['forms'] = gen_forms(r)
     return ops
 
 
@@ -750,7 +834,7 @@ def run_history(ops, ft, config, collect=None):
                 # fbar lives in the output plane (shape `samples`); the other plane's shape is the `samples_in` argument
                 # (handed over as an int when that plane is square, on every other case)
                 shp, MN = MN, (shp[0] if (shp[0] == shp[1] and op['seed'] % 2 == 0) else shp)
-            f = make_input(shp, op['dtype'], op['seed'])
+            f = make_input(shp, op['dtype'], op['seed'], op.get('layout'))
             f0 = f.copy()
             try:
                 if op['method'] == 'mdft_bp' and not isinstance(MN, tuple):
@@ -767,8 +851,14 @@ def run_history(ops, ft, config, collect=None):
                 fail = fail or f'op {idx}: raised {type(ex).__name__}: {str(ex)[:120]}'
                 sizes.append((len(ft.mdft.Ein), len(ft.czt.components)))
                 continue
-            lowp = prec == 32 if op['method'] in ('mdft', 'mdft_bp') else op['dtype'] == 'complex64'
-            ok, err = close(got, want, 1e-5 if lowp else 1e-10)
+            # which precision the engine works in: the matrix DFT in config.precision; the chirp-Z in that of the array it is
+            # given (integer / boolean arrays are cast to config.precision first)
+            lowp = prec == 32 if op['method'] in ('mdft', 'mdft_bp') else (
+                op['dtype'] in ('complex64', 'float32') or (prec == 32 and not op['dtype'].startswith(('complex', 'float'))))
+            # single precision: two builds of the same basis may round a shifted coordinate differently by one ulp (Python float vs
+            # NumPy scalar shift), which the chirp phases amplify: conditioning-aware tolerance (see tol_for)
+            tl = max(1e-5, tol_for(dict(op, precision=32))) if lowp else 1e-10
+            ok, err = close(got, want, tl)
             if got.dtype != want.dtype:
                 fail = fail or f'op {idx}: dtype {got.dtype} on the shared executor, {want.dtype} on a fresh one'
             elif not ok:
@@ -891,7 +981,7 @@ def check_transform(c, verbose=False):
     """True iff the real code satisfies the property on this case"""
     ft, pr, config = _impl()
     (m, n), Q, (M, N), shift = case_args(c)
-    f = make_input((m, n), c['dtype'], c['seed'])
+    f = make_input((m, n), c['dtype'], c['seed'], c.get('layout'))
     config.precision = c.get('precision', 64)
     try:
         try:
@@ -902,6 +992,8 @@ def check_transform(c, verbose=False):
             return False, f'{c["method"]} raised {type(ex).__name__}: {str(ex)[:160]}'
     finally:
         config.precision = 64
+    if not np.array_equal(f, make_input((m, n), c['dtype'], c['seed'])):
+        return False, f'{c["method"]} modified its input array in place'
     sp = spec2_numpy(f, Q, (M, N), shift, c['dir'])
     tol = tol_for(c)
     if shift[0] == 0 and shift[1] == 0:
@@ -919,7 +1011,7 @@ def check_transform(c, verbose=False):
 def check_fft(c, verbose=False):
     ft, pr, config = _impl()
     m, n = c['shape']
-    f = make_input((m, n), c['dtype'], c['seed'])
+    f = make_input((m, n), c['dtype'], c['seed'], c.get('layout'))
     try:
         out = (pr.focus if c['dir'] < 0 else pr.unfocus)(f, c['Q'])
     except Exception as ex:
@@ -999,7 +1091,7 @@ def _shrink(c):
             return not check_transform(x)[0]
         except Exception:
             return False
-    for key, simple in (('forms', None), ('dtype', 'complex128'), ('precision', 64), ('shift', [0, 0]), ('Q', 1), ('dir', -1)):
+    for key, simple in (('forms', None), ('layout', None), ('dtype', 'complex128'), ('precision', 64), ('shift', [0, 0]), ('Q', 1), ('dir', -1)):
         t = dict(best, **{key: simple})
         if t != best and fails(t):
             best = t
